@@ -893,7 +893,119 @@ pub fn run_write_case(c: &Case, outdir: &Path, out: &mut String) {
 }
 
 /// `readwig` / `readbed` case: the file is given (`FILE <path>`), only read.
+/// A file image given as segments (`SEG <offset> <hex>`), zero elsewhere: files whose data lies beyond 4 GiB without 4 GiB of memory.
+pub struct Sparse {
+    segs: Vec<(u64, Vec<u8>)>,
+    len: u64,
+    pos: u64,
+}
+
+impl std::io::Read for Sparse {
+    fn read(&mut self, buf: &mut [u8]) -> std::io::Result<usize> {
+        if self.pos >= self.len || buf.is_empty() {
+            return Ok(0);
+        }
+        // inside a segment: copy from it; in a hole: zeros up to the next segment (or the end)
+        for (off, data) in &self.segs {
+            if self.pos >= *off && self.pos < *off + data.len() as u64 {
+                let i = (self.pos - *off) as usize;
+                let n = buf.len().min(data.len() - i);
+                buf[..n].copy_from_slice(&data[i..i + n]);
+                self.pos += n as u64;
+                return Ok(n);
+            }
+        }
+        let next = self.segs.iter().map(|(o, _)| *o).filter(|o| *o > self.pos).min().unwrap_or(self.len);
+        let n = (buf.len() as u64).min(next - self.pos) as usize;
+        for b in &mut buf[..n] {
+            *b = 0;
+        }
+        self.pos += n as u64;
+        Ok(n)
+    }
+}
+
+impl std::io::Seek for Sparse {
+    fn seek(&mut self, p: std::io::SeekFrom) -> std::io::Result<u64> {
+        let np: i128 = match p {
+            std::io::SeekFrom::Start(x) => x as i128,
+            std::io::SeekFrom::End(x) => self.len as i128 + x as i128,
+            std::io::SeekFrom::Current(x) => self.pos as i128 + x as i128,
+        };
+        if np < 0 {
+            return Err(std::io::Error::new(std::io::ErrorKind::InvalidInput, "seek before the start"));
+        }
+        self.pos = np as u64;
+        Ok(self.pos)
+    }
+}
+
+/// `readwig` on a sparse image: chromosome table, then interval and per-base queries through the plain or the caching reader
+fn read_wig_sparse(c: &Case, out: &mut String) {
+    let segs: Vec<(u64, Vec<u8>)> = c.records("SEG").map(|l| (l[1].parse().unwrap(), unhex(&l[2]))).collect();
+    let len = segs.iter().map(|(o, d)| o + d.len() as u64).max().unwrap_or(0);
+    let mode = c.opt_map().get("reader").cloned().unwrap_or_else(|| "plain".into());
+    let r = match BigWigRead::open(Sparse { segs, len, pos: 0 }) {
+        Ok(r) => r,
+        Err(e) => {
+            writeln!(out, "OPEN err {}", format!("{:?}", e).split('(').next().unwrap()).unwrap();
+            return;
+        }
+    };
+    writeln!(out, "OPEN ok").unwrap();
+    header_lines(r.info(), out);
+    let qs: Vec<&Vec<String>> = c.records("Q").collect();
+    macro_rules! answer {
+        ($rd:expr, $qi:expr, $q:expr) => {{
+            let q: &Vec<String> = $q;
+            let (s, e): (u32, u32) = (q[3].parse().unwrap(), q[4].parse().unwrap());
+            match q[1].as_str() {
+                "iv" => match $rd.get_interval(&q[2], s, e) {
+                    Err(e) => writeln!(out, "A {} err {}", $qi, read_err_class(&e)).unwrap(),
+                    Ok(it) => {
+                        let mut line = format!("A {} ok", $qi);
+                        let mut bad = None;
+                        for v in it {
+                            match v {
+                                Ok(v) => write!(line, " {}:{}:{}", v.start, v.end, f32bits(v.value)).unwrap(),
+                                Err(e) => {
+                                    bad = Some(read_err_class(&e));
+                                    break;
+                                }
+                            }
+                        }
+                        match bad {
+                            None => writeln!(out, "{}", line).unwrap(),
+                            Some(b) => writeln!(out, "A {} err {}", $qi, b).unwrap(),
+                        }
+                    }
+                },
+                "vals" => match $rd.values(&q[2], s, e) {
+                    Err(e) => writeln!(out, "A {} err {}", $qi, read_err_class(&e)).unwrap(),
+                    Ok(v) => writeln!(out, "A {} ok{}", $qi, rle_values(&v)).unwrap(),
+                },
+                _ => {}
+            }
+        }};
+    }
+    if mode == "cached" {
+        let mut rd = r.cached();
+        for (qi, q) in qs.iter().enumerate() {
+            answer!(rd, qi, q);
+        }
+    } else {
+        let mut rd = r;
+        for (qi, q) in qs.iter().enumerate() {
+            answer!(rd, qi, q);
+        }
+    }
+}
+
 pub fn run_read_case(c: &Case, out: &mut String) {
+    if c.kind == "readwig" && c.records("SEG").next().is_some() {
+        read_wig_sparse(c, out);
+        return;
+    }
     // the file travels inside the case (`FILEHEX <hex>`), or is named by `FILE <path>`
     let bytes = match c.records("FILEHEX").next() {
         Some(l) => unhex(&l[1]),
